@@ -1,6 +1,7 @@
 SPECIFICATION Spec
 CONSTANTS
-  Kinds = {"removeslash", "addslash", "static1", "static2", "auth_rel", "auth_query", "auth_abs"}
+  Kinds = {"removeslash", "addslash", "static1", "static2", "static3", "auth_rel", "auth_query", "auth_abs"}
+  Forms = {"origin"}
   Methods = {"GET"}
   SegToks = {"a", "empty", "evil", "bsevil", "pslash", "pbs", "sub", "dotdot", "at"}
   PathLen = 3
